@@ -12,7 +12,8 @@ Require Import V.Model.ClaimThreads.
 Require Import V.Proofs.TailArith.
 Require Import V.Proofs.FragArith.
 Require Import V.Proofs.ReaderInv.
-Require Import V.Proofs.ExclDefs V.Proofs.ExclPub1 V.Proofs.ExclPub2 V.Proofs.ExclPub3 V.Proofs.ExclRd1 V.Proofs.ExclRd2.
+Require Import V.Proofs.ExclDefs V.Proofs.ExclPub1 V.Proofs.ExclPub2 V.Proofs.ExclPub3 V.Proofs.ExclRd1.
+Require Import V.Proofs.ExclRd2.
 From Coq Require Import ZifyBool.
 Open Scope Z_scope.
 
@@ -50,34 +51,49 @@ Section R.
     destruct ((p =? x_idx pl) && (o =? o')); [|cbn in Hlen; lia]. pose proof (cur_len gh pl o' sl' (HI pl eq_refl) Hc). lia. Qed.
 
   (* ---- the subscriber's own steps ---- *)
-  Lemma VInv_idle gh l : vpc_ok (v_pc l) = true -> vin_poll (v_pc l) = false -> forallb flav_ok (v_todo l) = true -> VInv c gh l.
-  Proof. intros H1 H2 H3. assert (H4 : von_frame (v_pc l) = false) by (destruct (v_pc l); try discriminate; reflexivity).
-    constructor; try assumption; try (rewrite H2; intros; discriminate); try (rewrite H4; intros; discriminate).
+  Lemma VInv_idle gh l : vin_poll (v_pc l) = false -> VInv c gh l.
+  Proof. intros H2. assert (H4 : von_frame (v_pc l) = false) by (destruct (v_pc l); try discriminate; reflexivity).
+    constructor; try (rewrite H2; intros; discriminate); try (rewrite H4; intros; discriminate).
+    - destruct (v_pc l); try discriminate H2; reflexivity.
     - intros E. rewrite E in H2. discriminate.
     - intros [E | E]; rewrite E in H2; discriminate. Qed.
 
-  Lemma VInv_finish gh r l : forallb flav_ok (v_todo l) = true -> VInv c gh (v_finish r l).
-  Proof. intros H. unfold v_finish, v_begin. apply VInv_idle; cbn.
-    - destruct (tl (v_todo l)); reflexivity.
-    - destruct (tl (v_todo l)); reflexivity.
-    - destruct (v_todo l) as [|f r0]; [reflexivity|]. cbn in *. lia. Qed.
+  Lemma VInv_finish gh r l : VInv c gh (v_finish r l).
+  Proof. unfold v_finish, v_begin. apply VInv_idle; cbn. destruct (tl (v_todo l)); reflexivity. Qed.
 
-  (* a state inside the loop, not on a frame *)
-  Lemma VInv_loop gh l pc : pollf c gh l -> forallb flav_ok (v_todo l) = true -> pc = VLen \/ pc = VCommit \/ pc = VSet ->
-    VInv c gh (vl_pc l pc).
-  Proof. intros P Fl Hpc. constructor; cbn; try assumption.
-    - destruct Hpc as [-> | [-> | ->]]; reflexivity.
+  (* a state inside a poll, not on a frame *)
+  Lemma VInv_in gh l : pollf c gh l -> pc_flav (v_pc l) (v_flav l) = true -> vin_poll (v_pc l) = true -> von_frame (v_pc l) = false -> VInv c gh l.
+  Proof. intros P H0 H1 H2. constructor; try assumption; try (rewrite H2; intros; discriminate).
     - intros _. exact P.
-    - destruct Hpc as [-> | [-> | ->]]; intros; discriminate.
-    - destruct Hpc as [-> | [-> | ->]]; intros; discriminate.
-    - destruct Hpc as [-> | [-> | ->]]; intros [X | X]; discriminate. Qed.
+    - intros E. rewrite E in H2. discriminate.
+    - intros [E | E]; rewrite E in H2; discriminate. Qed.
 
-  Lemma VInv_end gh l : pollf c gh l -> forallb flav_ok (v_todo l) = true -> VInv c gh (v_end_poll l).
-  Proof. intros P Fl. unfold v_end_poll. destruct (_ <? _); [apply VInv_loop; auto | apply VInv_finish; assumption]. Qed.
+  Lemma VInv_end gh l : pollf c gh l -> is_peek (v_flav l) = false -> is_block (v_flav l) = false -> VInv c gh (v_end_poll l).
+  Proof. intros P E1 E2. unfold v_end_poll. destruct (_ <? _); [|apply VInv_finish].
+    apply VInv_in; [exact P | cbn; change (v_flav (vl_pc l VSet)) with (v_flav l); rewrite E1, E2; reflexivity | reflexivity | reflexivity]. Qed.
 
-  Lemma VInv_vloop gh l : pollf c gh l -> forallb flav_ok (v_todo l) = true -> VInv c gh (v_loop l).
-  Proof. intros P Fl. unfold v_loop. destruct (_ && _); [apply VInv_loop; auto | apply VInv_end; assumption]. Qed.
+  Lemma VInv_vloop gh l : pollf c gh l -> is_peek (v_flav l) = false -> is_block (v_flav l) = false -> VInv c gh (v_loop l).
+  Proof. intros P E1 E2. unfold v_loop. destruct (_ && _); [|apply VInv_end; assumption].
+    apply VInv_in; [exact P | cbn; change (v_flav (vl_pc l VLen)) with (v_flav l); rewrite E2; reflexivity | reflexivity | reflexivity]. Qed.
 
-  Lemma pollf_same gh l l' : pollf c gh l -> v_idx l' = v_idx l -> v_pos l' = v_pos l -> v_toff0 l' = v_toff0 l -> v_off l' = v_off l -> pollf c gh l'.
-  Proof. intros (g & G1 & G2 & G3 & G4 & G5) E1 E2 E3 E4. exists g. rewrite E1, E2, E3, E4. auto. Qed.
+  Lemma VInv_pend gh l : pollf c gh l -> is_peek (v_flav l) = true -> VInv c gh (v_pend l).
+  Proof. intros P E1. unfold v_pend. destruct (_ <? _); [|apply VInv_finish].
+    apply VInv_in; [exact P | cbn; exact E1 | reflexivity | reflexivity]. Qed.
+
+  Lemma VInv_ploop gh l : pollf c gh l -> is_peek (v_flav l) = true -> VInv c gh (v_ploop c l).
+  Proof. intros P E1. unfold v_ploop. destruct (_ && _); [|apply VInv_pend; assumption].
+    apply VInv_in; [exact P | cbn; change (v_flav (vl_pc l VLen)) with (v_flav l); destruct (v_flav l); try discriminate E1; reflexivity | reflexivity | reflexivity]. Qed.
+
+  Lemma VInv_bend gh l : pollf c gh l -> is_block (v_flav l) = true -> VInv c gh (v_bend l).
+  Proof. intros P E1. unfold v_bend. destruct (_ <? _); [|apply VInv_finish].
+    apply VInv_in; [exact P | cbn; exact E1 | reflexivity | reflexivity]. Qed.
+
+  Lemma VInv_bloop gh l : pollf c gh l -> is_block (v_flav l) = true -> VInv c gh (v_bloop l).
+  Proof. intros P E1. unfold v_bloop. destruct (_ <? _); [|apply VInv_bend; assumption].
+    apply VInv_in; [exact P | cbn; exact E1 | reflexivity | reflexivity]. Qed.
+
+  Lemma pollf_same gh l l' : pollf c gh l -> v_todo l' = v_todo l -> v_idx l' = v_idx l -> v_pos l' = v_pos l -> v_toff0 l' = v_toff0 l ->
+    v_off l' = v_off l -> v_ppos l' = v_ppos l -> v_rpos l' = v_rpos l -> v_p0 l' = v_p0 l -> pollf c gh l'.
+  Proof. intros (g & G1 & G2 & G3 & G4 & G5 & G6 & G7) E0 E1 E2 E3 E4 E5 E6 E7. exists g. unfold v_flav in *.
+    rewrite E0, E1, E2, E3, E4, E5, E6, E7. auto 10. Qed.
 End R.
